@@ -6,7 +6,7 @@ import HickoryVerif.Model.Multiplexer
 Line protocol of C16.
 
 UDP (stateless, one line per query):
-`udp <timeout> <retry_interval> <retry_floor> <max_retries> <server> <id> <case01>[n|o|m|f][x][e] <questions> { | <event>* }*`
+`udp <timeout> <retry_interval> <retry_floor> <max_retries> <server> <id> <case01>[n|o|m|f][x][e][s] <questions> { | <event>* }*`
 * case01    case randomisation, followed by how the harness builds the request (ignored by the model:
             the code reads `options().case_randomization` whatever the constructor)
 * addr      `4:<ip as decimal>:<port>` / `6:<ip as decimal>:<port>`
@@ -52,13 +52,13 @@ def parseEvent (s : String) : Option Timed :=
     pure (d, .dgram { src := a, parses := p, isResponse := r, id := i, questions := q })
   | _ => none
 
-/-- `S;<ok|inuse<n>|denied<n>|other>;<ok|err|short>`: the provider's bind results and the socket's
+/-- `S;<ok|slow|inuse<n>|denied<n>|other>;<ok|err|short>`: the provider's bind results and the socket's
 `send_to` behaviour for one transmission; becomes the `setupFail` pseudo-event when the set-up fails -/
 def parseSetup (s : String) : Option (Option Timed) :=
   match s.splitOn ";" with
   | ["S", bind, send] => do
     let (retryable, fatal) ←
-      if bind == "ok" then some (0, false)
+      if bind == "ok" || bind == "slow" then some (0, false)
       else if bind == "other" then some (0, true)
       else if bind.startsWith "inuse" then (bind.drop 5).toString.toNat?.map (·, false)
       else if bind.startsWith "denied" then (bind.drop 6).toString.toNat?.map (·, false)
@@ -103,7 +103,9 @@ def handleUdp (toks : List String) : Option String :=
     let timeout ← timeout.toNat?; let interval ← interval.toNat?; let floor ← floor.toNat?; let maxr ← maxr.toNat?
     let server ← parseAddr server; let id ← id.toNat?; let cr ← parseBool (String.ofList (crTok.toList.take 1)); let qs ← parseQuestions qs
     let c : Config := { timeout := timeout, interval := retryInterval interval floor, maxRetries := maxr }
-    let rq : Request := { server := server, id := id, caseRand := cr, questions := qs }
+    -- `s` in the flag token: a TSIG signer is configured; it signs when there is an AXFR / IXFR question
+    let signed := crTok.toList.contains 's' && qs.any fun q => q.qtype == 252 || q.qtype == 251
+    let rq : Request := { server := server, id := id, caseRand := cr, questions := qs, signed := signed }
     let ss ← scripts.mapM parseScript
     -- `e` in the flag token: the request does not encode, the first transmission fails before binding
     let ss := if crTok.toList.contains 'e' then ((0, Event.setupFail) :: ss.headD []) :: ss.tail else ss
@@ -113,15 +115,18 @@ def handleUdp (toks : List String) : Option String :=
 
 /-! ## multiplexer blocks
 
-`begin mux <timeout ms> <max_active> <stalled01>` … `end`.  Request `k` gets the model id `k + 1`; `u` is
+`begin mux <timeout ms> <max_active> <stalled01>[s]` … `end` (`s`: a TSIG signer is configured).  Request `k` gets the model id `k + 1`; `u` is
 an id no request has (0).  In a non-stalled block the stream takes every outbound message at once
 (so the peer knows the id); in a stalled block it never does.
-ops: `send k [e]` (`e`: a request that does not encode) · `deliver r<k>|u|g|q<k>|e|c <count>` · `poll` · `recv k` · `cancel k` · `advance ms` ·
+ops: `send k [e] [x]` (`e`: a request that does not encode; `x`: an AXFR question — signed when a
+signer is configured, and then the unsigned frames routed to it fail verification) · `deliver r<k>|u|g|q<k>|e|c <count>` · `poll` · `recv k` · `cancel k` · `advance ms` ·
 `shutdown` · `end` (every live caller drains its stream: the summary is the answer). -/
 
 structure MuxDrv where
   s : Mux.State
   stalled : Bool
+  /-- `with_signer(..)` -/
+  signer : Bool := false
   nextTag : Nat := 0
   /-- requests whose message reached the peer -/
   known : List Nat := []
@@ -185,8 +190,10 @@ def muxStep (d : MuxDrv) (toks : List String) : Option (MuxDrv × String) :=
   match toks with
   | "send" :: k :: opt => do
     let k ← k.toNat?
-    let enc ← match opt with | [] => some true | ["e"] => some false | _ => none
-    match Mux.send d.s k [k + 1] enc with
+    let (enc, axfr) ← match opt with
+      | [] => some (true, false) | ["e"] => some (false, false)
+      | ["x"] => some (true, true) | ["e", "x"] => some (false, true) | _ => none
+    match Mux.send d.s k [k + 1] enc (d.signer && axfr) with
     | .panic _ => pure (d, "panic")
     | .err => pure (d, "panic")
     | .ok (s', .sent _) =>
@@ -225,8 +232,9 @@ def step (s : State) (toks : List String) : State × String :=
   | ["consts"] =>
     (s, s!"{UdpMatch.MAX_EXAMINED} {Mux.QOS_MAX_RECEIVE_MSGS} {Mux.ID_TRIES} {Mux.CHAN_CAP} {Mux.OUT_CAP} {UdpMatch.BIND_RETRIES}")
   | "begin" :: "mux" :: t :: m :: st :: _ =>
-    match t.toNat?, m.toNat?, parseBool st with
-    | some t, some m, some st => (some { s := Mux.init t m, stalled := st }, "ok")
+    match t.toNat?, m.toNat?, parseBool (String.ofList (st.toList.take 1)) with
+    | some t, some m, some stl =>
+      (some { s := Mux.init t m, stalled := stl, signer := st.toList.contains 's' }, "ok")
     | _, _, _ => (none, "bad-op")
   | ["end"] =>
     match s with
